@@ -346,6 +346,11 @@ func (enc Encryptor) encryptZeroPkNoP(pk *PublicKey, ct Element[ring.Poly]) (err
 		enc.xeSampler.AtLevel(levelQ).ReadAndAdd(c1)
 	}
 
+	if ct.IsMontgomery {
+		ringQ.MForm(c0, c0)
+		ringQ.MForm(c1, c1)
+	}
+
 	return
 }
 
